@@ -123,9 +123,9 @@ where
 fn integ_ops<P>(c: &[f64], x: f64, knot: Knot) -> Outcome
 where
     P: PolyK + HasIntegral,
-    <P as HasIntegral>::IntegralOf: Evaluate + Translate,
+    <P as HasIntegral>::IntegralOf: Evaluate + Translate + Clone + PartialEq + std::fmt::Debug,
     Log<P>: HasIntegral,
-    <Log<P> as HasIntegral>::IntegralOf: Evaluate + Translate,
+    <Log<P> as HasIntegral>::IntegralOf: Evaluate + Translate + Clone + PartialEq + std::fmt::Debug,
 {
     let p = P::from_coeffs(c);
     lib!({
